@@ -40,7 +40,7 @@ __CPROVER_requires(uch == mon_data[mon_i] && uch != 0)
 __CPROVER_requires(__CPROVER_is_fresh(input, sizeof(*input)) && __CPROVER_is_fresh(len, sizeof(*len)))
 __CPROVER_requires(*input == mon_data + mon_i + 1 && *len == mon_len - mon_i - 1)
 __CPROVER_requires(m == &SPEC_MAP && G_DIAG_ROOM)
-__CPROVER_requires(0 <= file_pos && file_pos <= (1l << 41))
+__CPROVER_requires(-1 <= file_pos && file_pos <= (1l << 41))       /* -1: ftell failed (non-seekable standard input); the position is only used in diagnostics */
 __CPROVER_assigns(*input, *len, G)
 __CPROVER_ensures(g_file_failures == __CPROVER_old(g_file_failures))   /* frame: main-level bookkeeping untouched */
 __CPROVER_ensures(g_diag >= __CPROVER_old(g_diag) && g_diag <= __CPROVER_old(g_diag) + 6)
@@ -73,7 +73,7 @@ __CPROVER_requires(data == (const char *)mon_data && m == mon_map && m == &SPEC_
 __CPROVER_requires(__CPROVER_is_fresh(indent, sizeof(*indent)) && *indent == mon_indent_in)
 __CPROVER_requires(-INDENT_BOUND <= mon_indent_in && mon_indent_in <= INDENT_BOUND)
 __CPROVER_requires(mon_c0 <= mon_len && mon_c1 <= mon_len && mon_c2 <= mon_len && mon_c3 <= mon_len)
-__CPROVER_requires(0 <= orig_file_pos && orig_file_pos <= (1l << 40))
+__CPROVER_requires(-1 <= orig_file_pos && orig_file_pos <= (1l << 40))
 __CPROVER_requires(G_DIAG_ROOM && g_lines_listed < (1ul << 39))
 /* C09 "never invents text": the line handed over is the one the framing automaton has just
    delivered from the file -- completely read, by the most recent fread, into this buffer */
